@@ -98,7 +98,7 @@ class CallMixin:
                 yield from self.call_value(s1, f, args, kwargs)
 
     # ------------------------------------------------------------------ source functions
-    def bind_params(self, st, fnode, args, kwargs, defaults_module):
+    def bind_params(self, st, fnode, args, kwargs, defaults_module, closure=None):
         """returns list of (state, loc dict) alternatives (defaults may need evaluation)"""
         a = fnode.args
         params = [p.arg for p in a.posonlyargs + a.args]
@@ -132,7 +132,12 @@ class CallMixin:
                 raise Unsupported(f"missing argument {p} for {getattr(fnode, 'name', 'lambda')}")
             nxt = []
             for s0, l0 in alts:
-                sd = s0.with_loc({"$module": defaults_module, "$qual": "<default>", "$depth": 0})
+                dloc = {"$module": defaults_module, "$qual": "<default>", "$depth": 0}
+                if closure is not None:
+                    # defaults of a nested function / lambda see the defining scope (evaluated here at call time:
+                    # exact as long as the captured names were not rebound in between)
+                    dloc["$closure"] = closure
+                sd = s0.with_loc(dloc)
                 for s1, v in self.ev(d, sd):
                     if isinstance(v, RaiseV):
                         raise Unsupported("default argument raises")
@@ -147,7 +152,7 @@ class CallMixin:
         node = f.node
         depth = st.loc.get("$depth", 0)
         if isinstance(node, ast.Lambda):
-            for s1, loc in self.bind_params(st, node, args, kwargs, f.module):
+            for s1, loc in self.bind_params(st, node, args, kwargs, f.module, f.closure):
                 loc.update({"$module": f.module, "$qual": st.loc.get("$qual"), "$depth": depth + 1,
                             "$closure": f.closure})
                 caller = s1.loc
@@ -167,7 +172,7 @@ class CallMixin:
             return
         if depth >= self.inline_depth:
             raise Unsupported(f"inline depth exceeded at {qual}")
-        for s1, loc in self.bind_params(st, node, args, kwargs, f.module):
+        for s1, loc in self.bind_params(st, node, args, kwargs, f.module, f.closure):
             loc.update({"$module": f.module, "$qual": qual or st.loc.get("$qual"), "$depth": depth + 1})
             if f.closure is not None:
                 loc["$closure"] = f.closure
@@ -192,7 +197,26 @@ class CallMixin:
         """several normal returns of an inlined call that left heap and ghost state untouched become ONE outcome whose
         value is the if-then-else of the individual values over their path conditions (keeps the path count a sum)"""
         normal = [(s, v) for s, v in outs if not isinstance(v, RaiseV)]
-        if len(normal) < 2 or any(s.heap is not base.heap or s.ghost is not base.ghost or s.held != base.held
+
+        def only_garbage(s, v):
+            """the call changed no cell that existed before it, and its value refers to no cell it allocated"""
+            if s.heap is base.heap:
+                return True
+            if any(s.heap.get(a) is not o for a, o in base.heap.items()):
+                return False
+
+            def fresh_ref(x):
+                if isinstance(x, Ref):
+                    return x.addr >= base.nalloc
+                if isinstance(x, TupleV):
+                    return any(fresh_ref(i) for i in x.items)
+                if isinstance(x, Opt):
+                    return fresh_ref(x.val)
+                if isinstance(x, Rec):
+                    return any(fresh_ref(i) for i in x.f.values())
+                return False
+            return not fresh_ref(v)
+        if len(normal) < 2 or any(not only_garbage(s, v) or s.ghost is not base.ghost or s.held != base.held
                                   or len(s.pc) < len(base.pc) for s, v in normal):
             yield from outs
             return
@@ -207,6 +231,7 @@ class CallMixin:
             return
         covered = z3.Or(*[z3.And(*s.pc[n:]) if len(s.pc) > n else z3.BoolVal(True) for s, v in normal])
         merged = base._clone(pc=base.pc + (covered,), loc=normal[0][0].loc, nalloc=max(s.nalloc for s, v in normal))
+        # (cells allocated inside the call are unreachable from the merged value: the heap stays the caller's)
         yield merged, acc
         for s, v in outs:
             if isinstance(v, RaiseV):
